@@ -128,6 +128,31 @@ def extra_cases(h):
     # (3) a link target nested inside a class group that is itself the source of another link (containment: the nested object must be built
     #     before its owner, and its own source before it)
     nested_target_cases(h)
+    self_link_cases(h)
+
+
+def self_link_cases(h):
+    """(4) a link from a component into itself (tok.limit --> tok.size) is the shortest cycle: refused with ValueError on a parser without any
+    other link, as the only source or as one of two sources, and the parser stays usable for a legal link afterwards."""
+    for style in ("group", "subclass"):
+        for sources in (("tok.limit",), ("dec.limit", "tok.limit")):
+            parser = ArgumentParser(exit_on_error=False)
+            if style == "group":
+                parser.add_class_arguments(Tok, "tok")
+                parser.add_class_arguments(Dec, "dec")
+                tgt, other = "tok.size", "dec.width"
+            else:
+                parser.add_subclass_arguments(Tok, "tok", default={"class_path": f"{__name__}.Tok"})
+                parser.add_subclass_arguments(Dec, "dec", default={"class_path": f"{__name__}.Dec"})
+                tgt, other = "tok.init_args.size", "dec.init_args.width"
+            key = f"links:self-link:{style}:{'+'.join(sources)}>{tgt}"
+            res = outcome(lambda: parser.link_arguments(sources if len(sources) > 1 else sources[0], tgt, compute_fn=(lambda *a: 1), apply_on="instantiate"))
+            h.check(res[0] == "exc" and res[1] == "ValueError", key + ":accepted" if res[0] == "ok" else key + ":" + str(res[1]), f"a link from a component into itself was not refused with ValueError: {res[:2]}", {"style": style, "sources": sources, "target": tgt})
+            if res[0] == "exc":
+                after = outcome(lambda: (parser.link_arguments("tok.limit", other, compute_fn=(lambda v: 2), apply_on="instantiate"), parser.instantiate_classes(parser.parse_args([])))[1])
+                ok = after[0] == "ok" and after[1]["dec"].width == 2
+                h.check(ok, key + ":parser-unusable-after-the-refusal", f"after the refused self link a legal link no longer works: {after[:3] if after[0] != 'ok' else 'wrong wiring'}", {"style": style})
+            h.nontrivial(key)
     # (2) history: instantiate, add a link whose source is declared after its target, instantiate again
     classes = make_classes(3)
     for first, second in itertools.permutations([(0, 1), (2, 0), (2, 1), (1, 0)], 2):
